@@ -357,6 +357,7 @@ func c04CaseBody(c *core.Ctx, t *dyn.TypeOps, ch, k, s, e int, caseID string, fo
 	}
 	c.Sample("appendsample", d)
 	calls := 0
+	readWhole := false
 	for _, target := range counts {
 		for calls < target {
 			calls++
@@ -364,6 +365,14 @@ func c04CaseBody(c *core.Ctx, t *dyn.TypeOps, ch, k, s, e int, caseID string, fo
 			wasFull := win.M.Len == win.M.Cap
 			if win.M.Cap > 0 {
 				c.Distinct(core.NewHash().Str(caseID).Int(calls).Sum())
+			}
+			if wasFull && !readWhole {
+				// the full buffer is read out completely (a consumer drains it)
+				// before the next sample is offered: reading changes nothing
+				readWhole = true
+				sl := t.MakeSl(win.B.Len() + ch)
+				core.Guard(func() { t.SelfPair.Read(win.B, sl) })
+				c.Obs("full_buffers_read_out_completely_before_the_next_append", 1)
 			}
 			v := w.NextStamp()
 			before := mon.ShapeOf(win.B)
